@@ -284,6 +284,21 @@ theorem St.ground {b : Pos} {l : Lexer} (hs : l.state = .ground) (h : F b l) : S
   unfold St; rw [hs]; exact h
 theorem St.done {b : Pos} {l : Lexer} (hs : l.state = .done) : St b l := by
   unfold St; rw [hs]; trivial
+theorem St.unq {b : Pos} {l : Lexer} (hs : l.state = .unquoted) (h : plt b (sp l) ∧ Cur0 l ∧
+    (F (sp l) l ∨ (l.line = l.sline ∧ l.col = l.scol ∧ isUnqDelim (next l).1 = false))) : St b l := by
+  unfold St; rw [hs]; exact h
+theorem St.qstr {b : Pos} {l : Lexer} (hs : l.state = .qstring) (h : plt b (sp l) ∧ Gt (sp l) l) : St b l := by
+  unfold St; rw [hs]; exact h
+theorem F.set {q : Pos} {l : Lexer} (h : F q l) (s : LState) : F q (setState s l) := h.congr rfl rfl rfl
+theorem St.unq_set {b : Pos} {x : Lexer} (h : plt b (sp x) ∧ Cur0 x ∧
+    (F (sp x) x ∨ (x.line = x.sline ∧ x.col = x.scol ∧ isUnqDelim (next x).1 = false))) :
+    St b (setState .unquoted x) := by
+  apply St.unq rfl
+  have hn : (next (setState .unquoted x)).1 = (next x).1 := next_fst_congr _ _ rfl
+  refine ⟨h.1, h.2.1, ?_⟩
+  rcases h.2.2 with h2 | h2
+  · exact Or.inl (h2.set _)
+  · exact Or.inr ⟨h2.1, h2.2.1, by rw [hn]; exact h2.2.2⟩
 
 /-- effect of one state function: nothing but error tokens queued, or one token after `b` -/
 def Post (b : Pos) (l l' : Lexer) : Prop :=
@@ -549,12 +564,12 @@ theorem GS.first {b : Pos} {l0 p : Lexer} (h : GS b l0 p) (hne : (next p).1 ≠ 
   omega
 
 /-- a state function that ends in the ground state having queued at most one token at `q` -/
-theorem post_tok (b : Pos) (l0 l' : Lexer) (q : Pos) (hb : plt b q) (hst : l'.state = .ground) (hF : F q l')
+theorem post_tok (b : Pos) (l0 l' : Lexer) (q : Pos) (hb : plt b q) (hF : F q l')
     (hi : noErr l'.items = noErr l0.items ∨ ∃ t, noErr l'.items = noErr l0.items ++ [t] ∧ tpos t = q) :
-    Post b l0 l' := by
+    Post b l0 (setState .ground l') := by
   rcases hi with hi | ⟨t, hi, htp⟩
-  · exact Or.inl ⟨hi, St.ground hst (hF.mono hb)⟩
-  · exact Or.inr ⟨t, hi, by rw [htp]; exact hb, by rw [htp]; exact St.ground hst hF⟩
+  · exact Or.inl ⟨hi, St.ground rfl ((hF.mono hb).set _)⟩
+  · exact Or.inr ⟨t, hi, by rw [htp]; exact hb, by rw [htp]; exact St.ground rfl (hF.set _)⟩
 
 theorem emit_items (c : Code) (hc : c ≠ Code.error) (s : Lexer) (l0 : Lexer) (e0 : noErr s.items = noErr l0.items) :
     noErr (emit c s).items = noErr l0.items ∨
@@ -588,10 +603,9 @@ theorem groundSQuote_post (b : Pos) (l0 p : Lexer) (h : GS b l0 p) (hne : (next 
   · obtain ⟨k, er, _⟩ := emit_eff .string (skipTo [39] (consume (next p).2)).2
     have hge : Gt (sp (next p).2) (emit .string (skipTo [39] (consume (next p).2)).2) := hg.congr k.1 k.2.1
     have han := next_adv (emit .string (skipTo [39] (consume (next p).2)).2)
-    refine post_tok b l0 _ (sp (next p).2) f2 rfl (Gt.F (Gt.adv hge han)) ?_
+    refine post_tok b l0 _ (sp (next p).2) f2 (Gt.F (Gt.adv hge han)) ?_
     have := emit_items .string (by decide) (skipTo [39] (consume (next p).2)).2 l0 hit
     rw [hsp] at this
-    show noErr (next (emit .string (skipTo [39] (consume (next p).2)).2)).2.items = _ ∨ _
     rw [han.1.items]
     exact this
   · exact post_done b l0 _ _ _ _ hit
@@ -605,7 +619,7 @@ theorem post_unq (b : Pos) (l0 p : Lexer) (h : GS b l0 p) (hne : (next p).1 ≠ 
     unfold sp; rw [hs.2.2.sline, hs.2.2.scol]
   have hF := f1.F.peek
   refine Or.inl ⟨by show noErr (peek (next p).2).2.items = _; rw [hs.2.2.items]; exact f3, ?_⟩
-  show plt b (sp (peek (next p).2).2) ∧ Cur0 (peek (next p).2).2 ∧ (F (sp (peek (next p).2).2) (peek (next p).2).2 ∨ _)
+  refine St.unq_set ?_
   rw [hsp]
   exact ⟨f2, hF.1, Or.inl hF⟩
 
@@ -625,7 +639,7 @@ theorem groundPlus_post (b : Pos) (l0 p : Lexer) (h : GS b l0 p) (hne : (next p)
       intro e; rw [e] at hq; simp at hq
     have hg : Gt (sp (next p).2) (peek (next p).2).2 := f1.F.peek.toGt (by rw [hn]; exact h10)
     obtain ⟨k, er, _⟩ := emit_eff .unquoted (peek (next p).2).2
-    refine post_tok b l0 _ (sp (next p).2) f2 rfl (Gt.F (hg.congr k.1 k.2.1)) ?_
+    refine post_tok b l0 _ (sp (next p).2) f2 (Gt.F (hg.congr k.1 k.2.1)) ?_
     have := emit_items .unquoted (by decide) (peek (next p).2).2 l0 (by rw [hs.2.2.items]; exact f3)
     rw [hsp] at this
     exact this
@@ -647,7 +661,7 @@ theorem groundSlash_post (b : Pos) (l0 p : Lexer) (h : GS b l0 p) (hne : (next p
     have ha := skipTo_adv [10] (peek (next p).2).2
     split
     · exact Or.inl ⟨by show noErr (skipTo [10] (peek (next p).2).2).2.items = _; rw [ha.1.items]; exact hit,
-        St.ground rfl (Gt.F (hg.adv ha))⟩
+        St.ground rfl ((Gt.F (hg.adv ha)).set _)⟩
     · exact post_done b l0 _ _ _ _ (by rw [ha.1.items]; exact hit)
   · split
     · rename_i hq
@@ -658,7 +672,7 @@ theorem groundSlash_post (b : Pos) (l0 p : Lexer) (h : GS b l0 p) (hne : (next p
       · have ha2 := (ha.trans (next_adv _)).trans (next_adv (next (skipTo [42, 47] (next (peek (next p).2).2).2).2).2)
         exact Or.inl ⟨by
           show noErr (next (next (skipTo [42, 47] (next (peek (next p).2).2).2).2).2).2.items = _
-          rw [ha2.1.items]; exact hit, St.ground rfl (Gt.F (hg.adv ha2))⟩
+          rw [ha2.1.items]; exact hit, St.ground rfl ((Gt.F (hg.adv ha2)).set _)⟩
       · exact post_done b l0 _ _ _ _ (by rw [ha.1.items]; exact hit)
     · exact post_unq b l0 p h hne
 
@@ -677,23 +691,20 @@ theorem lexGround_post (b : Pos) (l : Lexer) (hF : F b l) : Post b l (lexGround 
     split
     · obtain ⟨f1, f2, f3⟩ := h.first hne'
       obtain ⟨k, er, _⟩ := emit_eff (.punct (UInt8.ofNat (next (groundStart l)).1)) (next (peek (groundStart l)).2).2
-      refine post_tok b l _ (sp (next (peek (groundStart l)).2).2) f2 rfl (Gt.F (f1.congr k.1 k.2.1)) ?_
-      exact emit_items _ (by intro e; cases e) _ l f3
+      refine post_tok b l _ (sp (next (peek (groundStart l)).2).2) f2 (Gt.F (f1.congr k.1 k.2.1)) ?_
+      exact emit_items (.punct (UInt8.ofNat (next (groundStart l)).1)) (fun e => Code.noConfusion e)
+        (next (peek (groundStart l)).2).2 l f3
     · split
       · exact groundSQuote_post b l _ h hne'
       · split
         · obtain ⟨f1, f2, f3⟩ := h.first hne'
-          refine Or.inl ⟨f3, ?_⟩
-          show plt b (sp (next (peek (groundStart l)).2).2) ∧ Gt (sp (next (peek (groundStart l)).2).2) (next (peek (groundStart l)).2).2
-          exact ⟨f2, f1⟩
+          exact Or.inl ⟨f3, St.qstr rfl ⟨f2, f1⟩⟩
         · split
           · exact groundSlash_post b l _ h hne'
           · split
             · exact groundPlus_post b l _ h hne'
             · rename_i h1 h2 h3 h4 h5
-              refine Or.inl ⟨h.items, ?_⟩
-              show plt b (sp (peek (groundStart l)).2) ∧ Cur0 (peek (groundStart l)).2 ∧
-                (F (sp (peek (groundStart l)).2) (peek (groundStart l)).2 ∨ _)
+              refine Or.inl ⟨h.items, St.unq_set ?_⟩
               refine ⟨h.hb, h.cur0, Or.inr ⟨h.sl.symm, h.sc.symm, ?_⟩⟩
               rw [hn]
               have := hgs.nsp
